@@ -7,6 +7,7 @@ package hx
 
 import (
 	"context"
+	"crypto/sha256"
 	"encoding/json"
 	"fmt"
 
@@ -39,8 +40,10 @@ func TwinFinalizeVoted(c *Chain, txs [][]byte) (*abci.ResponseFinalizeBlock, err
 		votes = append(votes, abci.VoteInfo{Validator: abci.Validator{Address: cons, Power: v.ConsensusPower(pr)}, BlockIdFlag: tmproto.BlockIDFlagCommit})
 	}
 	h := c.header()
+	// the block hash CometBFT would supply (x/evm stores it for the BLOCKHASH opcode): any fixed function of the header
+	hash := sha256.Sum256([]byte(fmt.Sprintf("twin-block/%d/%d", h.Height, h.Time.UnixNano())))
 	return c.App.BaseApp.FinalizeBlock(&abci.RequestFinalizeBlock{
-		Height: h.Height, Txs: txs, Time: h.Time, ProposerAddress: h.ProposerAddress,
+		Height: h.Height, Txs: txs, Time: h.Time, ProposerAddress: h.ProposerAddress, Hash: hash[:],
 		DecidedLastCommit: abci.CommitInfo{Votes: votes},
 	})
 }
